@@ -4,6 +4,13 @@
 //! bulk file content streams as raw bytes AFTER the message frame (never a giant
 //! CBOR blob). See docs/specifications/distributed-sync.md.
 
+#[cfg(paiml_copia_verif)]
+#[allow(unused_imports)]
+use copia_simworld::shim::{fs2, std, tokio};
+#[cfg(paiml_copia_verif)]
+#[allow(unused_imports)]
+use copia_simworld::{eprintln, println};
+
 use ciborium::{de::from_reader, ser::into_writer};
 use serde::{Deserialize, Serialize};
 use std::io::{Read, Write};
